@@ -248,6 +248,8 @@ class Worker:
         rep = json.loads(line)
         if rep.get("id") != item["id"]:
             raise core.InfraError(f"worker answered case {rep.get('id')} for {item['id']}")
+        if rep.get("cls") == "hang":
+            self.stop()  # the worker exits after a blow-up (its high-water mark is spoiled): start afresh
         return rep, time.time() - t0
 
 
